@@ -700,6 +700,16 @@ theorem rt_msg_slot (S : Schema) (E : Enums) (cs : KeyCase) (f : FieldD) (hid se
       else Option.none := by
     rw [toDictSlot]
     simp [hm, hw, hr]
+    -- (D46 repair) the extra disjunct `value != default` adds nothing under the value guard `hpres`:
+    -- an unmarked plain sub-message of a well-typed value equals its default
+    by_cases h1 : ((ow = true ∨ f.optional = true) ∨ sel = true)
+    · simp [h1]
+    · have h2 : eqDefault S f.defKind (Val.msg c sl ow [] cur) = true := by
+        simp only [Bool.or_eq_true] at hpres
+        rcases hpres with h | h
+        · exact absurd h h1
+        · exact h
+      simp [h1, h2]
   rw [SlotRT2, hts]
   constructor
   · intro j hjj
